@@ -449,7 +449,7 @@ func run(o checks.Opts) *report.Report {
 // non-boolean CEL rules must be refused at parse time.
 func runCEL(o checks.Opts) *report.Report {
 	rep := report.New("C17", "cel-boolean")
-	rep.Rule = "CEL rules of every non-boolean result type must be rejected by Parse; boolean ones accepted"
+	rep.Rule = "CEL rules of every non-boolean result type must be rejected by Parse; boolean ones accepted - on the first parse and on every later parse of the same rule in the same process (three rounds in different orders)"
 	cases := []struct {
 		rule string
 		ok   bool
@@ -458,12 +458,33 @@ func runCEL(o checks.Opts) *report.Report {
 		{"1", false}, {"'x'", false}, {"self.spec", false}, {"self.metadata.name", false}, {"[true]", false}, {"{'a': true}", false}, {"1.5", false}, {"null", false},
 		{"self.spec.a", false}, {"size(self.metadata.name)", false}, {"", false}, {"true &&", false},
 	}
-	for _, c := range cases {
-		_, err := internalprobing.Parse(context.Background(), []corev1alpha1.ObjectSetProbe{{Probes: []corev1alpha1.Probe{{CEL: &corev1alpha1.ProbeCELSpec{Rule: c.rule, Message: "m"}}}}})
-		rep.Executions++
-		rep.Outcomes[fmt.Sprintf("accepted=%v", err == nil)]++
-		if (err == nil) != c.ok {
-			rep.AddViolation(report.Violation{Identity: "cel-non-boolean", Message: fmt.Sprintf("CEL rule %q: accepted=%v, want %v (err=%v)", c.rule, err == nil, c.ok, err), Params: map[string]any{"rule": c.rule}})
+	// the same rule is parsed again on every reconcile (and on the retry after a rejected one):
+	// three rounds over the cases in one process - forward, backward, forward - and every
+	// repetition must give the verdict of the first; an accepted rule is then evaluated
+	rep.Bounds["rounds"] = 3
+	for round := 0; round < 3; round++ {
+		for i := range cases {
+			c := cases[i]
+			if round == 1 {
+				c = cases[len(cases)-1-i]
+			}
+			prober, err := internalprobing.Parse(context.Background(), []corev1alpha1.ObjectSetProbe{{Probes: []corev1alpha1.Probe{{CEL: &corev1alpha1.ProbeCELSpec{Rule: c.rule, Message: "m"}}}}})
+			rep.Executions++
+			rep.Outcomes[fmt.Sprintf("accepted=%v", err == nil)]++
+			if (err == nil) != c.ok {
+				rep.AddViolation(report.Violation{Identity: "cel-non-boolean", Message: fmt.Sprintf("CEL rule %q, parse round %d: accepted=%v, want %v (err=%v)", c.rule, round+1, err == nil, c.ok, err), Params: map[string]any{"rule": c.rule}})
+			}
+			if err == nil {
+				func() {
+					defer func() {
+						if r := recover(); r != nil {
+							rep.AddViolation(report.Violation{Identity: "cel-probe-panics", Message: fmt.Sprintf("probing with the accepted CEL rule %q panics: %v", c.rule, r), Params: map[string]any{"rule": c.rule}})
+						}
+					}()
+					w := &unstructured.Unstructured{Object: map[string]any{"apiVersion": "verif.example/v1", "kind": "Widget", "metadata": map[string]any{"name": "w"}, "spec": map[string]any{"a": "s"}, "status": map[string]any{"phase": "Pending"}}}
+					prober.Probe(w)
+				}()
+			}
 		}
 	}
 	rep.ImplTraces, rep.States, rep.Transitions = rep.Executions, rep.Executions, rep.Executions
